@@ -538,7 +538,8 @@ def oracle_algebra(r):
 def _conj_case(draw):
     n, names = _reg(draw, 1, 5)
     ops = draw(st.lists(CO.unitary_op(n), min_size=1, max_size=6))
-    return {"n": n, "names": names, "a": draw(_pstring(n, min_weight=1)), "ops": ops, "neg": draw(st.sampled_from([0.5, 0.25, -0.3, 1.0])),
+    nz = st.one_of(st.integers(0, 3), st.integers(0, 3), st.tuples(G.small_floats(), G.small_floats()).map(lambda t: [t[0] * 3 + 0.01, t[1] * 3]))
+    return {"n": n, "names": names, "a": draw(_pstring(n, coefs=nz, min_weight=1)), "ops": ops, "neg": draw(st.sampled_from([0.5, 0.25, -0.3, 1.0])),
             "pos": draw(st.sampled_from([0.0, 0.1, -0.5]))}
 
 
@@ -615,6 +616,7 @@ def oracle_expect(r):
     rho = (1 - w) * np.outer(psi, psi.conj()) + w * np.outer(psi2, psi2.conj())
     dt = np.complex64 if r["dtype"] == "c64" else np.complex128
     tol = 2e-5 if r["dtype"] == "c64" else TOL
+    atol = 1e-5 if r["dtype"] == "c64" else 1e-7  # tolerance of the documented normalisation precondition
     qmap = {q: int(p) for q, p in zip(qs, pos)}
     if r.get("superset_map"):
         others = [p for p in range(m) if p not in pos]
@@ -635,17 +637,17 @@ def oracle_expect(r):
         M = _mat("".join(full), c)
         want_sv = np.vdot(psi, M @ psi)
         want_dm = np.trace(rho @ M)
-        got = p.expectation_from_state_vector(sv, qmap)
+        got = p.expectation_from_state_vector(sv, qmap, atol=atol)
         _scalar_eq(f"PauliString.expectation_from_state_vector ({lab})", got, want_sv, tol * (1 + abs(c)))
-        got = p.expectation_from_density_matrix(dm, qmap)
+        got = p.expectation_from_density_matrix(dm, qmap, atol=atol)
         _scalar_eq(f"PauliString.expectation_from_density_matrix ({lab})", got, want_dm, tol * (1 + abs(c)))
         total_sv += want_sv
         total_dm += want_dm
         strings.append(p)
     psum = cirq.PauliSum.from_pauli_strings(strings)
     scale = 1 + sum(abs(_coef(d["c"])) for d in r["terms"])
-    _scalar_eq("PauliSum.expectation_from_state_vector", psum.expectation_from_state_vector(sv, qmap), total_sv, tol * scale)
-    _scalar_eq("PauliSum.expectation_from_density_matrix", psum.expectation_from_density_matrix(dm, qmap), total_dm, tol * scale)
+    _scalar_eq("PauliSum.expectation_from_state_vector", psum.expectation_from_state_vector(sv, qmap, atol=atol), total_sv, tol * scale)
+    _scalar_eq("PauliSum.expectation_from_density_matrix", psum.expectation_from_density_matrix(dm, qmap, atol=atol), total_dm, tol * scale)
     _scalar_eq("PauliSum.expectation_from_state_vector(check_preconditions=False)",
                psum.expectation_from_state_vector(sv, qmap, check_preconditions=False), total_sv, tol * scale)
     # projectors on the same register
@@ -845,7 +847,10 @@ def oracle_phasor(r):
         M = M + _mat(lab_t, c)
     psum = cirq.PauliSum.from_pauli_strings(terms)
     expo = float(r["t"]) if abs(float(r["t"])) > 1e-9 else 0.7
-    pse = cirq.PauliSumExponential(psum, exponent=expo)
+    if r.get("sym"):
+        pse = cirq.resolve_parameters(cirq.PauliSumExponential(psum, exponent=sympy.Symbol("t")), {"t": expo})
+    else:
+        pse = cirq.PauliSumExponential(psum, exponent=expo)
     U = np.eye(2 ** n, dtype=complex)
     nfac = 0
     for fac in pse:
@@ -874,8 +879,8 @@ def oracle_phasor(r):
 
 @st.composite
 def _pmeas_case(draw):
-    n, names = _reg(draw, 1, 3)
-    m = draw(st.integers(1, n))
+    n, names = _reg(draw, 1, 4)
+    m = max(draw(st.integers(1, n)), draw(st.integers(1, n)))
     return {"n": n, "names": names, "w": list(draw(st.permutations(list(range(n)))))[:m],
             "obs": "".join(draw(st.lists(st.sampled_from("XYZ"), min_size=m, max_size=m))), "neg": draw(st.booleans()),
             "state": draw(st.lists(G.small_floats(), min_size=2 * 2 ** n, max_size=2 * 2 ** n)), "eig": draw(st.integers(0, 3)),
@@ -928,6 +933,170 @@ def oracle_pmeas(r):
         if abs(got_p - want_p) > 1e-6:
             raise Violation(f"Pauli measurement outcome {bit} (eigenvalue {'+' if bit == 0 else '-'}1) has probability {got_p:.6g}, reference {want_p:.6g}")
     return {"nontrivial": bool("Y" in obs and (r["neg"] or len(w) > 1)), "api": r["api"], "deterministic": len(seen) == 1, "weight": len(w)}
+
+
+
+# ------------------------------------------------------------------------------------------- dense strings, linear combinations
+
+
+def _dlabel(d):
+    return "".join("IXYZ"[int(m)] for m in d.pauli_mask)
+
+
+def _dmat(d, n=None):
+    lab = _dlabel(d)
+    if n is not None:
+        lab = (lab + "I" * n)[:n]
+    return complex(d.coefficient) * L.pauli_string_matrix(lab)
+
+
+@st.composite
+def _dense_case(draw):
+    la = "".join(draw(st.lists(st.sampled_from("IXYZ"), min_size=1, max_size=4)))
+    lb = "".join(draw(st.lists(st.sampled_from("IXYZ"), min_size=1, max_size=4)))
+    return {"a": la, "ca": draw(_coefs()), "b": lb, "cb": draw(_coefs()), "i": draw(st.integers(0, 3)), "j": draw(st.integers(0, 4)),
+            "p": draw(st.sampled_from("IXYZ")), "k": draw(st.integers(-3, 5)), "s": draw(st.tuples(G.small_floats(), G.small_floats()).map(list)),
+            "gates": draw(st.lists(st.tuples(st.sampled_from(["X", "Y", "Z", "H", "S", "T", "I"]), G.small_floats(), G.small_floats()), min_size=1, max_size=4)),
+            "mat": draw(st.lists(G.small_floats(), min_size=8, max_size=8)), "rows": draw(st.lists(st.lists(st.sampled_from("IXYZ"), min_size=3, max_size=3).map("".join), min_size=1, max_size=4))}
+
+
+def oracle_dense(r):
+    la, lb = r["a"], r["b"]
+    ca, cb = _coef(r["ca"]), _coef(r["cb"])
+    da, db = cirq.DensePauliString(la, coefficient=ca), cirq.DensePauliString(lb, coefficient=cb)
+    n = max(len(la), len(lb))
+    tol = 1e-9 * (1 + abs(ca) + abs(cb)) ** 2
+    A, B = _dmat(da, n), _dmat(db, n)
+    _eq("DensePauliString matrix", _dmat(da), L.pauli_string_matrix(la, ca), tol)
+    _eq("DensePauliString(list of ints)", _dmat(cirq.DensePauliString(["IXYZ".index(ch) for ch in la], coefficient=ca)), L.pauli_string_matrix(la, ca), tol)
+    _eq("DensePauliString(list of gates)", _dmat(cirq.DensePauliString([PG[ch] for ch in la], coefficient=ca)), L.pauli_string_matrix(la, ca), tol)
+    if abs(abs(ca) - 1) < 1e-9:
+        _eq("unitary(DensePauliString)", cirq.unitary(da), L.pauli_string_matrix(la, ca), 1e-9)
+        qs = cirq.LineQubit.range(len(la))
+        U = np.eye(2 ** len(la), dtype=complex)
+        for op in cirq.decompose_once(cirq.GateOperation(da, qs)):
+            U = (L.embed(cirq.unitary(op), [qs.index(q) for q in op.qubits], [2] * len(la)) if op.qubits else cirq.unitary(op)[0, 0] * np.eye(2 ** len(la))) @ U
+        _eq("decomposition of a DensePauliString gate", U, L.pauli_string_matrix(la, ca), 1e-9)
+    prod = da * db
+    if len(prod) != n:
+        raise Violation(f"product of dense strings of lengths {len(la)},{len(lb)} has length {len(prod)}")
+    _eq("dense a * dense b (shorter one padded with identities)", _dmat(prod), A @ B, tol)
+    want_comm = bool(np.allclose(L.pauli_string_matrix((la + "I" * n)[:n]) @ L.pauli_string_matrix((lb + "I" * n)[:n]),
+                                 L.pauli_string_matrix((lb + "I" * n)[:n]) @ L.pauli_string_matrix((la + "I" * n)[:n])))
+    if cirq.commutes(da, db) != want_comm:
+        raise Violation(f"cirq.commutes(dense a, dense b) = {cirq.commutes(da, db)}, padded matrices commute: {want_comm}")
+    s = complex(*r["s"])
+    _eq("dense a * scalar", _dmat(da * s), A[: 2 ** len(la), : 2 ** len(la)] * s if False else L.pauli_string_matrix(la, ca * s), tol)
+    _eq("scalar * dense a", _dmat(s * da), L.pauli_string_matrix(la, ca * s), tol)
+    if abs(s) > 1e-3:
+        _eq("dense a / scalar", _dmat(da / s), L.pauli_string_matrix(la, ca / s), tol / abs(s) + 1e-9)
+    _eq("-dense a", _dmat(-da), L.pauli_string_matrix(la, -ca), tol)
+    _eq("abs(dense a)", _dmat(abs(da)), L.pauli_string_matrix(la, abs(ca)), tol)
+    _eq("a.tensor_product(b)", _dmat(da.tensor_product(db)), np.kron(L.pauli_string_matrix(la, ca), L.pauli_string_matrix(lb, cb)), tol)
+    k = int(r["k"])
+    if abs(ca) > 1e-3:
+        M = L.pauli_string_matrix(la, ca)
+        _eq(f"dense a ** {k}", _dmat(da ** k), np.linalg.matrix_power(M if k >= 0 else np.linalg.inv(M), abs(k)), 1e-7 * (1 + abs(ca) ** abs(k) + abs(1 / ca) ** abs(k)))
+    i = int(r["i"]) % len(la)
+    if str(da[i]) != la[i]:
+        raise Violation(f"dense[{i}] is {da[i]} for the string {la}")
+    j = i + int(r["j"])
+    if _dlabel(da[i:j]) != la[i:j]:
+        raise Violation(f"dense[{i}:{j}] is {_dlabel(da[i:j])} for the string {la}")
+    if [str(g) for g in da] != list(la) or len(da) != len(la):
+        raise Violation("iteration over a dense string does not give its Paulis")
+    oh = cirq.DensePauliString.one_hot(index=i, length=len(la), pauli=r["p"])
+    if _dlabel(oh) != "I" * i + r["p"] + "I" * (len(la) - i - 1) or oh.coefficient != 1:
+        raise Violation(f"one_hot(index={i}, length={len(la)}, pauli={r['p']}) is {oh!r}")
+    if _dlabel(cirq.DensePauliString.eye(len(la))) != "I" * len(la):
+        raise Violation("eye is not the identity string")
+    # mutable version
+    m = da.mutable_copy()
+    m[i] = r["p"]
+    want = la[:i] + r["p"] + la[i + 1:]
+    if _dlabel(m) != want or _dlabel(da) != la:
+        raise Violation("MutableDensePauliString item assignment wrong (or it mutated the frozen original)")
+    m[i:j] = lb[: len(la[i:j])].ljust(len(la[i:j]), "Z")
+    want = want[:i] + lb[: len(la[i:j])].ljust(len(la[i:j]), "Z") + want[i + len(la[i:j]):]
+    if _dlabel(m) != want:
+        raise Violation(f"MutableDensePauliString slice assignment gives {_dlabel(m)} expected {want}")
+    m = da.mutable_copy()
+    m *= s
+    _eq("mutable dense a *= scalar", _dmat(m), L.pauli_string_matrix(la, ca * s), tol)
+    if len(lb) <= len(la):
+        m = da.mutable_copy()
+        m *= db
+        _eq("mutable dense a *= dense b", _dmat(m), A @ B, tol)
+    if m.frozen() != cirq.DensePauliString(_dlabel(m), coefficient=m.coefficient) or da.mutable_copy().frozen() != da:
+        raise Violation("frozen()/mutable_copy() round trip changes the string")
+    # sparse <-> dense
+    qs = [cirq.LineQubit(3 * t + 1) for t in range(len(la))]
+    sp = da.on(*qs)
+    _eq("dense.on(qubits).matrix", sp.matrix(qs), L.pauli_string_matrix(la, ca), tol)
+    if sp.dense(qs) != da:
+        raise Violation("dense.on(*qs).dense(qs) != dense")
+    # Gaussian elimination keeps the generated group: every output row is a product of input rows and vice versa (rank)
+    rows = [cirq.MutableDensePauliString(x) for x in r["rows"]]
+    before = [_dmat(x) for x in rows]
+    cirq.MutableDensePauliString.inline_gaussian_elimination(rows)
+    span = {CG.phase_key(np.eye(8))}
+    mats = [np.eye(8, dtype=complex)]
+    for b in before:
+        mats = mats + [x @ b for x in mats]
+    span = {CG.phase_key(x) for x in mats}
+    for x in rows:
+        if CG.phase_key(_dmat(x)) not in span:
+            raise Violation("inline_gaussian_elimination produced a row outside the group generated by the input rows")
+    mats2 = [np.eye(8, dtype=complex)]
+    for x in rows:
+        mats2 = mats2 + [y @ _dmat(x) for y in mats2]
+    if {CG.phase_key(x) for x in mats2} != span:
+        raise Violation("inline_gaussian_elimination changed the group generated by the rows")
+    # linear combinations of gates / operations and Pauli expansions
+    GM = {"X": L.PX, "Y": L.PY, "Z": L.PZ, "H": (L.PX + L.PZ) / np.sqrt(2), "S": np.diag([1, 1j]), "T": np.diag([1, np.exp(0.25j * np.pi)]), "I": L.I2}
+    GG = {"X": cirq.X, "Y": cirq.Y, "Z": cirq.Z, "H": cirq.H, "S": cirq.S, "T": cirq.T, "I": cirq.I}
+    comb = None
+    M = np.zeros((2, 2), dtype=complex)
+    for name, re, im in r["gates"]:
+        c = complex(re, im)
+        term = c * GG[name]
+        comb = term if comb is None else comb + term
+        M = M + c * GM[name]
+    if not isinstance(comb, cirq.LinearCombinationOfGates):
+        raise Violation(f"scalar * gate sum is {type(comb).__name__}")
+    if len(comb) > 0:  # (an empty combination has no qubit count: documented ValueError)
+        _eq("LinearCombinationOfGates.matrix", comb.matrix(), M, 1e-9)
+        kk = abs(k) + 1
+        if all(name in "IXYZ" for name, _, _ in r["gates"]):  # powers are implemented for single-qubit Pauli combinations
+            powd = comb ** kk
+            want = np.linalg.matrix_power(M, kk)
+            got = powd.matrix() if len(powd) > 0 else np.zeros((2, 2))
+            _eq(f"LinearCombinationOfGates(Pauli basis) ** {kk}", got, want, 1e-7 * (1 + np.abs(want).max()))
+            ops1 = cirq.LinearCombinationOfOperations({GG[name](cirq.LineQubit(5)): complex(re, im) for name, re, im in r["gates"]})
+            Mo = sum((c * GM[name] for name, c in {name: complex(re, im) for name, re, im in r["gates"]}.items()), np.zeros((2, 2), dtype=complex))
+            if len(ops1) > 0:
+                po = ops1 ** kk
+                wo = np.linalg.matrix_power(Mo, kk)
+                _eq(f"LinearCombinationOfOperations(Pauli basis) ** {kk}", po.matrix() if len(po) > 0 else np.zeros((2, 2)), wo, 1e-7 * (1 + np.abs(wo).max()))
+        pe = cirq.pauli_expansion(comb)
+        _eq("pauli_expansion(LinearCombinationOfGates) re-summed", sum((v * L.PAULI[key] for key, v in pe.items()), np.zeros((2, 2), dtype=complex)), M, 1e-9)
+    q0, q1 = cirq.LineQubit.range(2)
+    lco = cirq.LinearCombinationOfOperations({GG[name](q1 if t % 2 else q0): complex(re, im) for t, (name, re, im) in enumerate(r["gates"])})
+    M2 = np.zeros((4, 4), dtype=complex)
+    seen_ops = {}
+    for t, (name, re, im) in enumerate(r["gates"]):
+        seen_ops[(name, t % 2)] = complex(re, im)  # dict semantics: later equal keys overwrite
+    for (name, w), c in seen_ops.items():
+        M2 = M2 + c * (np.kron(L.I2, GM[name]) if w else np.kron(GM[name], L.I2))
+    if set(lco.qubits) == {q0, q1}:
+        _eq("LinearCombinationOfOperations.matrix", lco.matrix(), M2, 1e-9)
+        pe2 = cirq.pauli_expansion(lco)
+        _eq("pauli_expansion(LinearCombinationOfOperations) re-summed", sum((v * L.pauli_string_matrix(key) for key, v in pe2.items()), np.zeros((4, 4), dtype=complex)), M2, 1e-9)
+    Um = L.random_unitary_from_floats(r["mat"], 2)
+    pe3 = cirq.pauli_expansion(cirq.MatrixGate(Um))
+    _eq("pauli_expansion(MatrixGate) re-summed", sum((v * L.PAULI[key] for key, v in pe3.items()), np.zeros((2, 2), dtype=complex)), Um, 1e-9)
+    return {"nontrivial": bool("Y" in la + lb and (abs(ca - 1) > 1e-9 or abs(cb - 1) > 1e-9)), "len_differs": len(la) != len(lb),
+            "commute": want_comm}
 
 
 # ------------------------------------------------------------------------------------------- boolean expressions / misc
@@ -1003,46 +1172,18 @@ def oracle_misc(r):
     return lab
 
 
-# =========================================================================================== candidate findings
+# =========================================================================================== repaired findings
+#
+# Four defects found by this check were repaired in the repository (fix: commits) and are generated again:
+#   C14-phasor-identity-wires   PauliStringPhasor(Gate) with identity positions computed the parity over all qubits
+#   C14-dense-times-sparse      DensePauliString * PauliString dropped the sparse string's coefficient
+#   C14-single-qubit-pow        PauliString.__pow__ of a one-qubit string ignored the coefficient
+#   C14-dm-pauli-measurement    DensityMatrixSimulator corrupted its state on a PauliMeasurementGate operation
+# Their minimal recipes are replayed as explicit examples via known_findings.json (status fixed).
+# Observed but deliberately not asserted: the deprecated PauliString.pass_operations_over with a multi-operation list
+# (only single-operation lists are checked, where the documented and the legacy reading coincide).
 
-
-def _lab(r, key="a"):
-    n = int(r["n"])
-    return (r[key]["ps"] + "I" * n)[:n]
-
-
-def _f14_1(sub, r):
-    """PauliStringPhasor(Gate) whose qubits are a superset of the string's qubits (dense string with identity entries):
-    the decomposition computes the Z-parity over *all* qubits, so the documented "extra qubits are acted on by the
-    identity" does not hold."""
-    return sub == "phasor" and bool(r.get("superset")) and "I" in _lab(r)
-
-
-def _f14_2(sub, r):
-    """DensePauliString * (PauliString operation with a coefficient != 1) drops that coefficient (_try_interpret_as_dps)."""
-    return sub == "algebra" and bool(r.get("dense_mixed")) and abs(_coef(r["b"]["c"]) - 1) > 1e-12
-
-
-def _f14_3(sub, r):
-    """PauliString.__pow__ of a single-qubit string ignores the coefficient: (-X)**3 -> X, (1j*X)**2 -> I."""
-    return sub == "phasor" and sum(ch != "I" for ch in _lab(r)) == 1 and int(r.get("pc", 0)) % 4 != 0
-
-
-def _f14_4(sub, r):
-    """DensityMatrixSimulator corrupts its state on a PauliMeasurementGate operation: apply_channel's apply_unitary
-    fallback runs the unitary prefix of the gate's decomposition in place before giving up on the measurement."""
-    return sub == "pauli_measure" and r.get("api") == "dm"
-
-
-KNOWN_FEATURES = {"F14_1_phasor_identity_wires": _f14_1, "F14_2_dense_times_sparse_coefficient": _f14_2,
-                  "F14_3_single_qubit_pow_coefficient": _f14_3, "F14_4_dm_pauli_measurement": _f14_4}
-# Candidates reported to the coordinator and not yet adjudicated are kept out of *generation* only (oracles unchanged);
-# VERIF_C14_PENDING=1 generates them.
-PENDING = set() if os.environ.get("VERIF_C14_PENDING") else set(KNOWN_FEATURES)
-
-
-def _not_pending(sub):
-    return lambda r: not any(KNOWN_FEATURES[f](sub, r) for f in sorted(PENDING))
+KNOWN_FEATURES = {}
 
 
 # =========================================================================================== registry
@@ -1053,15 +1194,16 @@ SUBCHECKS = [
     SubCheck("pairs_2q", None, oracle_pairs, enumerate=_pair_recipes, exhaustive_in=("quick", "thorough"), shards_quick=8, shards_thorough=8),
     SubCheck("conj_1q", None, oracle_conj1, enumerate=_conj1_recipes, exhaustive_in=("quick", "thorough"), shards_quick=2, shards_thorough=4),
     SubCheck("conj_2q", None, oracle_conj2, enumerate=_conj2_recipes, exhaustive_in=("thorough",), shards_quick=8, shards_thorough=16, doc=_CONJ_SLICE_DOC),
-    SubCheck("algebra", _algebra_case().filter(_not_pending("algebra")), oracle_algebra, quick=3000, thorough=80000, shards_quick=4, shards_thorough=16,
+    SubCheck("algebra", _algebra_case(), oracle_algebra, quick=3000, thorough=80000, shards_quick=4, shards_thorough=16,
              essential={"complex_coeff": 0.2}),
     SubCheck("conj_random", _conj_case(), oracle_conj_random, quick=1500, thorough=40000, shards_quick=4, shards_thorough=16,
              essential={"moved": 0.3}),
     SubCheck("expectation", _expect_case(), oracle_expect, quick=2500, thorough=60000, shards_quick=4, shards_thorough=16,
              essential={"permuted_map": 0.3}),
     SubCheck("sim_expectation", _sim_expect_case(), oracle_sim_expect, quick=1200, thorough=30000, shards_quick=4, shards_thorough=16),
-    SubCheck("phasor", _phasor_case().filter(_not_pending("phasor")), oracle_phasor, quick=2000, thorough=50000, shards_quick=4, shards_thorough=16),
-    SubCheck("pauli_measure", _pmeas_case().filter(_not_pending("pauli_measure")), oracle_pmeas, quick=1000, thorough=25000, shards_quick=2, shards_thorough=8),
+    SubCheck("phasor", _phasor_case(), oracle_phasor, quick=2000, thorough=50000, shards_quick=4, shards_thorough=16),
+    SubCheck("pauli_measure", _pmeas_case(), oracle_pmeas, quick=1000, thorough=25000, shards_quick=2, shards_thorough=8),
+    SubCheck("dense", _dense_case(), oracle_dense, quick=2000, thorough=50000, shards_quick=2, shards_thorough=8),
     SubCheck("misc", st.fixed_dictionaries({"expr": _bool_expr(), "ps": st.lists(st.sampled_from("IXYZ"), min_size=1, max_size=3).map("".join),
                                             "c": st.integers(0, 3)}), oracle_misc, quick=800, thorough=20000, shards_quick=2, shards_thorough=8),
 ]
